@@ -12,19 +12,40 @@ def statusStr : Status → String
 
 def listStr (xs : List String) : String := if xs.isEmpty then "-" else ",".intercalate xs
 
-def eventStr (e : Event) : String :=
-  "P cb " ++ toString e.serial ++ " " ++ statusStr e.result.status ++
-  " a=" ++ listStr (e.result.a.map fun r => toString r.ttl ++ ":" ++ hexOfBytes r.ip) ++
-  " c=" ++ listStr (e.result.c.map fun r => toString r.ttl ++ ":" ++ hexOfBytes r.name)
-
 def small? (w : String) (bound : Nat) : Option Nat := do
   let n ← w.toNat?
   if n < bound then some n else none
 
+def actStr : Act → String
+  | .lookup sid => "L" ++ toString sid
+  | .cancel id => "C" ++ toString id
+  | .cancelSelf => "S"
+
+/-- the callback line followed by one line per API call of its script -/
+def eventStrs (e : Event) : List String :=
+  ("P cb " ++ toString e.serial ++ " " ++ statusStr e.result.status ++
+   " a=" ++ listStr (e.result.a.map fun r => toString r.ttl ++ ":" ++ hexOfBytes r.ip) ++
+   " c=" ++ listStr (e.result.c.map fun r => toString r.ttl ++ ":" ++ hexOfBytes r.name)) ::
+  e.acts.map fun (a, ret) => "P act " ++ toString e.serial ++ " " ++ actStr a ++ " ret=" ++ toString ret
+
+def parseAct (w : String) : Option Act :=
+  if w == "S" then some .cancelSelf
+  else if w.startsWith "L" then (small? ((w.drop 1).toString) 64).map .lookup
+  else if w.startsWith "C" then (small? ((w.drop 1).toString) 65536).map .cancel
+  else none
+
+def parseActs (w : String) : Option (List Act) :=
+  if w == "-" then some [] else (w.splitOn ",").mapM parseAct
+
+/-- `lookup` without a script number: a callback that makes no API call -/
+def noScript : Nat := 1000000
+
 def parseOp (ws : List String) : Option Op :=
   match ws with
   | ["servers", n] => do pure (.servers (← small? n 4))
-  | ["lookup"] => some .lookup
+  | ["lookup"] => some (.lookup noScript)
+  | ["lookup", sid] => do pure (.lookup (← small? sid 64))
+  | ["defscript", acts] => do pure (.defScript (← parseActs acts))
   | ["cancel", i] => do pure (.cancel (← small? i 65536))
   | ["running", i] => do pure (.running (← small? i 65536))
   | ["recv", h] => do pure (.recv (← bytesOfHex h))
@@ -55,14 +76,21 @@ def recvTags (st : St) (d : List Byte) : String :=
 
 def opTags (st : St) : Op → String
   | .servers n => "servers" ++ toString n
-  | .lookup => if st.servers = 0 then "lookup-refused" else if st.reqs.isEmpty then "lookup-first" else "lookup-more"
+  | .lookup sid => (if st.servers = 0 then "lookup-refused" else if st.reqs.isEmpty then "lookup-first" else "lookup-more") ++
+      (if (st.scripts.getD sid []).isEmpty then "" else " lookup-scripted")
+  | .defScript _ => "defscript"
   | .cancel id => if (find st.reqs id).isSome then "cancel-hit" else "cancel-miss"
   | .running _ => "running"
   | .recv d => recvTags st d
   | .tick => if st.valueNumber = 0 then "tick-idle" else if st.r1.isEmpty then "tick-empty" else "tick-expire"
 
+def actTag (st : Status) : Act × Nat → String
+  | (.lookup _, ret) => "act-lookup-in-" ++ statusStr st ++ (if ret = 0 then " act-lookup-refused" else "")
+  | (.cancel _, ret) => if ret = 1 then "act-cancel-hit" else "act-cancel-miss"
+  | (.cancelSelf, _) => "act-cancel-self"
+
 def eventTags (es : List Event) : String :=
-  " ".intercalate (es.map fun e => "cb-" ++ statusStr e.result.status)
+  " ".intercalate (es.map fun e => " ".intercalate (("cb-" ++ statusStr e.result.status) :: e.acts.map (actTag e.result.status)))
 
 structure DSt where
   orig : Bool
@@ -73,6 +101,7 @@ def stepLine (s : DSt) (line : String) : DSt × List String :=
   match ws with
   | [] => (s, [])
   | "case" :: _ => ({ s with st := init }, [line.trimAscii.toString])
+  | ["touch", w] => if w == "on" || w == "off" then (s, ["P ret=0"]) else (s, ["bad-op"])
   | _ =>
     match parseOp ws with
     | none => (s, ["bad-op"])
@@ -82,14 +111,14 @@ def stepLine (s : DSt) (line : String) : DSt × List String :=
         | .recv d =>
             match Orig.onRecv s.st d with
             | .inl what => (s, ["B orig", "P ret=0", "P " ++ what])
-            | .inr (st', es) => ({ s with st := st' }, ["B orig", "P ret=0"] ++ es.map eventStr)
+            | .inr (st', es) => ({ s with st := st' }, ["B orig", "P ret=0"] ++ es.flatMap eventStrs)
         | _ =>
             let (st', o) := step s.st op
-            ({ s with st := st' }, ["P ret=" ++ toString o.ret] ++ o.events.map eventStr)
+            ({ s with st := st' }, ["P ret=" ++ toString o.ret] ++ o.events.flatMap eventStrs)
       else
         let (st', o) := step s.st op
         ({ s with st := st' },
-         ["B " ++ opTags s.st op ++ " " ++ eventTags o.events, "P ret=" ++ toString o.ret] ++ o.events.map eventStr)
+         ["B " ++ opTags s.st op ++ " " ++ eventTags o.events, "P ret=" ++ toString o.ret] ++ o.events.flatMap eventStrs)
 
 def main (args : List String) : IO Unit :=
   runDriver { orig := args.contains "orig", st := init } stepLine
